@@ -138,6 +138,37 @@ FRAMES = {
 }
 
 
+def guarded_alts(st, v, acc=None):
+    """alternatives of a lazily decided value that are alive on the path, each with the decisions it stands for"""
+    from .values import Choice
+    acc = dict(acc or {})
+    if not isinstance(v, Choice):
+        return [(acc, v)]
+    out = []
+    for cons, x in v.alts:
+        a = dict(acc)
+        ok = True
+        for k, allowed in cons.items():
+            cur = st.dom.get(k)
+            both = allowed if cur is None else (cur & allowed)
+            if k in a:
+                both = both & a[k]
+            if not both:
+                ok = False
+                break
+            a[k] = both
+        if ok:
+            out.extend(guarded_alts(st, x, a))
+    return out
+
+
+def frame_premise(ctx):
+    """the frame conditions as a premise of another property (C01 / C02: the region test reads the tracked position)"""
+    ctx.rule('C08.R8', 'C08: frame conditions of the AxisPosition mutators - each changes only its own fields (homing keeps '
+                       'units, positioning mode and home offset; unit and mode switches keep the position)', floor=4)
+    frame_rule(ctx, make_interp(ctx.model, modular=False))
+
+
 def frame_rule(ctx, I):
     for meth, (argkinds, may_change) in sorted(FRAMES.items()):
         c, fn = I.m.lookup(AX, meth)
@@ -162,8 +193,14 @@ def frame_rule(ctx, I):
             for e in s.trace:
                 if e[0] != 'write' or e[4] != 'A' or e[2] in may_change or e[2] not in FIELDS:
                     continue
-                for x in live_alts(s, e[3]):
+                if vkey(e[3]) == init[e[2]]:
+                    continue            # re-assigned the very value it had
+                for acc, x in guarded_alts(s, e[3]):
                     if vkey(x) == init[e[2]]:
+                        continue
+                    # the value it had in the cases where this alternative is written
+                    had = set(vkey(y) for y in live_alts(s, st0[e[2]], acc))
+                    if had == {vkey(x)}:
                         continue
                     if e[2] == 'absoluteMode' and x in (True, False) and s.dom.get(('fld', 'A', 'absoluteMode')) == frozenset([x]):
                         continue        # re-assigned the value it was found to have
@@ -231,8 +268,20 @@ def native_args_rule(ctx, I, r1='C08.R1', r7='C08.R7'):
                                            'defined in mm on the bed)' % (getattr(a, 'p', a), want))
 
 
-def sibling_paths(col, gcode, paths, I):
-    declare(col)
+def sibling_premise(col, gcode, paths, I):
+    """C08.R3 as a premise of another property: the unit / positioning-mode codes act on every axis alike"""
+    col.rule('C08.R3', 'C08: G20 / G21 set the unit factor of every axis and of the feed rate, G90 / G91 the positioning mode of '
+                       'X, Y, Z (and E as configured) - and nothing else', floor=4)
+    sibling_paths(col, gcode, paths, I, own=False)
+
+
+def state_code_premise(ctx):
+    run_path_rules(ctx, __name__, 'sibling_premise', ['G20', 'G21', 'G90', 'G91'], unroll=1)
+
+
+def sibling_paths(col, gcode, paths, I, own=True):
+    if own:
+        declare(col)
     if gcode in ('G0', 'G1', 'G2', 'G3'):
         homogeneity_paths(col, gcode, paths, I)
     for p in paths:
@@ -243,6 +292,7 @@ def sibling_paths(col, gcode, paths, I):
         if gcode in ('G0', 'G1'):
             from .rules_c04 import recorded_amount
             recorded_amount(col, gcode, [p], I, 'C08.R9')
+        if gcode in ('G0', 'G1', 'G2', 'G3'):
             from .pathfacts import exact_tracking
             col.instance('C08.R7', (gcode, f.describe(), tuple(f.decisions()[-5:])))
             for (fn, construct, msg) in exact_tracking(f, gcode):
